@@ -42,7 +42,7 @@ package airgapped
 //@ func (*Machine).GetOperationResult
 //@   safety C12
 //@   nosafety
-//@   requires am != nil
+//@   requires wfMachine(am)
 //@   modifies *
 //@   modifies $handlerErr, $dealsOK, $responsesOK, $keyrings, $handled, $reader, $readerSeed, $ciphers, $bufc
 //@   epilogue $handled = (result1 == nil)
@@ -50,7 +50,7 @@ package airgapped
 
 //@ func (*Machine).ProcessOperation
 //@   nosafety
-//@   requires am != nil
+//@   requires wfMachine(am)
 //@   prologue $handled = false
 //@   modifies *
 //@   modifies $handlerErr, $dealsOK, $responsesOK, $keyrings, $logged, $reader, $readerSeed, $ciphers, $bufc
@@ -111,7 +111,7 @@ package airgapped
 //@ func encrypt
 //@   safety C04
 //@   nosafety
-//@   pure
+//@   modifies []byte
 //@   modifies $ciphers
 //@   epilogue $ciphers = ite(result1 == nil, with(old($ciphers), content(result0), true), old($ciphers))
 //@ func (*Machine).saveBLSKeyring behavior secrecy
